@@ -1210,6 +1210,7 @@ func c02LoopSkips(c *Ctx, all map[*ssa.Function]bool) {
 	prims := map[string]bool{
 		"lib/authenticode.checkSignature": true, "(*signers/apk.apkSigner).Verify": true,
 		"(*lib/pkcs7.SignedData).Verify": true, "lib/signjar.verifySigFile": true, "lib/signjar.verifyPkcs": true,
+		"(*signers/apk.apkSignature).VerifySignature": true,
 	}
 	var fns []*ssa.Function
 	for f := range all {
@@ -1233,14 +1234,45 @@ func c02LoopSkips(c *Ctx, all map[*ssa.Function]bool) {
 				key := fmt.Sprintf("%s loop around %s#%d", p.FName(fn), p.calleeName(call.Common()), k)
 				c.Analysed(p.FName(fn))
 				_, skips := iterationSkips(fn, call, nil)
+				if !skips && failureContinues(fn, call) {
+					skips = true
+				}
 				if !skips {
 					c.Pass("R02h", key, p.Pos(call.Pos()), "every iteration verifies its entry")
 					continue
 				}
 				// a later "nothing was verified" test on every success path
 				empty := Guard{Name: "len(result) != 0", Match: func(f Fact) bool {
+					L, _ := loopAround(fn, call.Block())
+					// a flag set in the loop: `if !verified` / `if verified`
+					if ph, ok := f.V.(*ssa.Phi); ok {
+						setInLoop := dependsOn(ph, func(x ssa.Value) bool {
+							q, ok := x.(*ssa.Phi)
+							if !ok {
+								return false
+							}
+							for i, e := range q.Edges {
+								if bv, isB := boolConst(e); isB && bv && L[q.Block().Preds[i].Index] {
+									return true
+								}
+							}
+							return false
+						})
+						return setInLoop && f.Kind == IsTrue
+					}
 					bo, ok := f.V.(*ssa.BinOp)
 					if !ok {
+						return false
+					}
+					// a counter incremented in the loop: `n == 0`, `n > 0`
+					if _, isCall := bo.X.(*ssa.Call); !isCall && isIntConst(bo.Y, 0) {
+						counted := dependsOn(bo.X, func(x ssa.Value) bool {
+							a, ok := x.(*ssa.BinOp)
+							return ok && a.Op == token.ADD && L[a.Block().Index] && (isIntConst(a.Y, 1) || isIntConst(a.X, 1))
+						})
+						if counted {
+							return (bo.Op == token.EQL && f.Kind == IsFalse) || (bo.Op == token.NEQ && f.Kind == IsTrue) || (bo.Op == token.GTR && f.Kind == IsTrue)
+						}
 						return false
 					}
 					lc, ok := bo.X.(*ssa.Call)
@@ -1249,6 +1281,18 @@ func c02LoopSkips(c *Ctx, all map[*ssa.Function]bool) {
 					}
 					bi, ok := lc.Call.Value.(*ssa.Builtin)
 					if !ok || bi.Name() != "len" || !isIntConst(bo.Y, 0) {
+						return false
+					}
+					// the list that is tested is one the loop adds verified entries to
+					grown := dependsOn(lc.Call.Args[0], func(x ssa.Value) bool {
+						ac, ok := x.(*ssa.Call)
+						if !ok || !L[ac.Block().Index] {
+							return false
+						}
+						ab, ok := ac.Call.Value.(*ssa.Builtin)
+						return ok && ab.Name() == "append"
+					})
+					if !grown {
 						return false
 					}
 					return (bo.Op == token.EQL && f.Kind == IsFalse) || (bo.Op == token.NEQ && f.Kind == IsTrue) || (bo.Op == token.GTR && f.Kind == IsTrue)
@@ -1293,10 +1337,95 @@ func c02LoopSkips(c *Ctx, all map[*ssa.Function]bool) {
 		if getName == nil || upd == nil {
 			c.Undecided("R02h", "parseManifest section store", p.Pos(pm.Pos()), "Name lookup or the store into FilesMap.Files not found")
 		} else {
+			// the signature-file side keeps the same occurrence: every named section it splits off is stored
+			if vs := p.Func("lib/signjar.verifySigFile"); vs != nil {
+				c.Analysed(p.FName(vs))
+				var get2 ssa.CallInstruction
+				var upd2 *ssa.MapUpdate
+				for _, ci := range p.callsIn(vs, "(net/http.Header).Get") {
+					if s, ok := constString(ci.Common().Args[1]); ok && s == "Name" {
+						get2 = ci
+					}
+				}
+				for _, b := range vs.Blocks {
+					for _, in := range b.Instrs {
+						if mu, ok := in.(*ssa.MapUpdate); ok && get2 != nil && dependsOn(mu.Key, func(x ssa.Value) bool { return x == get2.Value() }) {
+							upd2 = mu
+						}
+					}
+				}
+				if get2 == nil || upd2 == nil {
+					c.Undecided("R02h", "verifySigFile section store", p.Pos(vs.Pos()), "Name lookup or the store into the section map not found")
+				} else {
+					_, skips2 := iterationSkips(vs, upd2, get2)
+					c.Check(!skips2, "R02h", "verifySigFile stores every named section it split off", p.Pos(upd2.Pos()), "last section of a name wins, as in parseManifest", "a named manifest section can be split off and then not stored in the section map: when a name occurs twice the signature file's section digest is checked against the first occurrence while the file digests come from the last (parseManifest keeps the last), so an appended duplicate section makes a replaced payload verify")
+				}
+			}
 			_, skips := iterationSkips(pm, upd, getName)
 			c.Check(!skips, "R02h", "parseManifest stores every named section it parsed", p.Pos(upd.Pos()), "last section of a name wins, as in verifySigFile", "a named manifest section can be parsed and then dropped (not stored into FilesMap.Files): when a name occurs twice, the file digests are checked against one occurrence while the signature file's section digest is checked against the other, so a forged duplicate section makes a replaced payload verify")
 		}
 	}
+}
+
+// failureContinues: the loop around `call` can go on to its next iteration although the call's
+// error was never established to be nil (a `continue` on some errors).
+func failureContinues(fn *ssa.Function, call *ssa.Call) bool {
+	L, H := loopAround(fn, call.Block())
+	if H == nil {
+		return false
+	}
+	ei := errResultIndex(call.Common().Signature())
+	if ei < 0 {
+		return false
+	}
+	var errv ssa.Value
+	if call.Common().Signature().Results().Len() == 1 {
+		errv = call
+	} else if refs := call.Referrers(); refs != nil {
+		for _, r := range *refs {
+			if ex, ok := r.(*ssa.Extract); ok && ex.Index == ei {
+				errv = ex
+			}
+		}
+	}
+	if errv == nil {
+		return true // the error is not even looked at
+	}
+	del := map[edge]bool{}
+	tested := false
+	for bi := range L {
+		b := fn.Blocks[bi]
+		ifi, ok := b.Instrs[len(b.Instrs)-1].(*ssa.If)
+		if !ok {
+			continue
+		}
+		bo, ok := ifi.Cond.(*ssa.BinOp)
+		if !ok || (bo.Op != token.NEQ && bo.Op != token.EQL) {
+			continue
+		}
+		if !((bo.X == errv && isNilConst(bo.Y)) || (bo.Y == errv && isNilConst(bo.X))) {
+			continue
+		}
+		tested = true
+		if bo.Op == token.NEQ {
+			del[edge{b.Index, 1}] = true
+		} else {
+			del[edge{b.Index, 0}] = true
+		}
+	}
+	if !tested {
+		return false // handled by the error-propagation rules
+	}
+	// leaving the loop is not continuing it
+	for bi := range L {
+		for si, s := range fn.Blocks[bi].Succs {
+			if !L[s.Index] {
+				del[edge{bi, si}] = true
+			}
+		}
+	}
+	seen := reachAfter(fn, call, del, nil)
+	return seen[H.Index]
 }
 
 // c02VerifiedObject (R02i): what is consumed after xmldsig.Verify is the element the signature
